@@ -30,6 +30,7 @@ from typing import Any, Callable
 
 from .. import core
 from ..gen import corrupt, invalid
+from ..gen.surface import PERF_VAR
 
 MODULES = ["ESV.Props.C10"]
 THEOREMS = [
@@ -51,6 +52,9 @@ THEOREMS = [
 ]
 
 DOCUMENTED = ("ParseError", "SsbCompilerError", "ValueError")
+# the model's configuration for the pinned tree: HasRoutinesVisitor visits a second, empty parse (see Cfg.reparseEmpty in
+# lean/ESV/Static/Ast.lean). To be set to False together with a `fix:` commit that passes `tree` to the visitor.
+MODEL_CFG = {"perf": PERF_VAR, "reparse_empty": True}
 MEM_MB = 1500
 
 # inputs that exercise the counterexample theorems and the recorded defects on the real code (run first, every time)
@@ -114,7 +118,8 @@ HUGE_DEF = re.compile(r"\bdef\s+-?(?:[0-9]{7,}|0[xX][0-9a-fA-F]{6,}|0[bB][01]{23
 def classify(text: str, o: dict) -> tuple[str, str] | None:
     """the property oracle of part B on one outcome: None = fine, else (kind, what)"""
     if o.get("no_answer") or o.get("error") == "MemoryError":
-        if HUGE_DEF.search(text):
+        bare = " ".join(t for t in corrupt.split_tokens(text) if not (t.isspace() or t.startswith("//") or t.startswith("/*") or t == "\\"))
+        if HUGE_DEF.search(bare):
             return "NoAnswer:routine_id_huge", "compile gives no answer (time / memory limit) for a routine id of 7+ digits: _enlarge_routine_info appends one entry per id"
         if "Position" in text and "macro" in text:
             return "NoAnswer:position_mark_in_nested_macro", "compile gives no answer: a macro holding a Position<> literal is called from another macro of the same file (macro.py build iterates the list it appends to)"
@@ -180,7 +185,7 @@ def gen_part_a(rng: random.Random, n_invalid: int) -> list[dict]:
             elif c < 0.72:
                 sh = [rng.choice(extra)]
             elif c < 0.92:
-                sh = rng.sample(shapes + extra[:2], 2)
+                sh = rng.sample(shapes + extra, 2)
             else:
                 sh = rng.sample(shapes, 3)
             i += 1
@@ -241,9 +246,9 @@ def part_a(run: core.Run, pool: core.Pool, drv_ok: bool, jobs: int, n_invalid: i
     mism = 0
     if drv_ok:
         drv = core.Driver()
-        reqs = [{"op": "static.check", "world": [["main", c["static"]]], "root": "main"} for c in cases]
+        reqs = [{"op": "static.check", "world": [["main", c["static"]]], "root": "main", "cfg": MODEL_CFG} for c in cases]
         wmodelled = [(w, o) for w, o in zip(worlds, wres) if w["modelled"]]
-        reqs += [dict({"op": "static.check"}, **invalid.world_static(w)) for w, _ in wmodelled]
+        reqs += [dict({"op": "static.check", "cfg": MODEL_CFG}, **invalid.world_static(w)) for w, _ in wmodelled]
         # the core AST side: programs the surface lowering can express are also checked through Static.check
         from ..gen import surface
         core_cases = []
